@@ -12,7 +12,7 @@ use crate::refmodel::ridl::from_idl;
 use crate::refmodel::rtype::{self, emit_ty, Builder, Env, Prim, Ty};
 use crate::refmodel::rval::{show, RVal};
 use crate::refmodel::rwire::encode_message;
-use candid::{Decode, IDLArgs};
+use candid::{Decode, Encode, IDLArgs};
 use num_bigint::{BigInt, BigUint};
 
 pub struct C08;
@@ -259,6 +259,42 @@ fn within_bounds(tags: &[&str], v: &RVal) -> bool {
     true
 }
 
+/// A fixed-size array reads a prefix of the wire vector; if the vector is longer the
+/// decoder must say so, not take the unread elements for what follows. The message is
+/// shaped so that a decoder that leaves one element unread lands exactly on a
+/// well-formed (but different) second argument.
+fn array_prefix_case(e: &mut Ent, ctx: &mut Ctx) -> Outcome {
+    let l = e.range(0, 40);
+    let second: Vec<u8> = (0..l).map(|_| e.u8()).collect();
+    let four = e.bool();
+    let mut first: Vec<u8> = if four { (0..4).map(|_| e.u8()).collect() } else { vec![] };
+    // one element too many; its value is the length a mis-positioned reader would need
+    first.push((l + 1) as u8);
+    let bytes = match guard(|| Encode!(&first, &second)) {
+        Ok(Ok(b)) => b,
+        _ => return Outcome::Skip("encode-failed"),
+    };
+    ctx.class("array-shorter-than-wire-vector-then-another-argument");
+    let native: Result<Result<(Vec<u8>, Vec<u8>), String>, _> = guard(|| {
+        if four {
+            Decode!(&bytes, [u8; 4], Vec<u8>).map(|(a, b)| (a.to_vec(), b)).map_err(|e| format!("{e:?}"))
+        } else {
+            Decode!(&bytes, [u8; 0], Vec<u8>).map(|(a, b)| (a.to_vec(), b)).map_err(|e| format!("{e:?}"))
+        }
+    });
+    match native {
+        Err(p) => Outcome::Fail(Failure::new(format!("native-array:{}", p.sig()), p.message)),
+        Ok(Err(_)) => {
+            ctx.nontrivial(digest_of(&bytes));
+            Outcome::Pass
+        }
+        Ok(Ok((a, b))) => Outcome::Fail(Failure::new(
+            "array-leaves-longer-vector-unread-and-misreads-next-argument",
+            format!("(vec {first:?}, vec {second:?}) read at ([u8; {}], Vec<u8>) returned ({a:?}, {b:?}); bytes {}", if four { 4 } else { 0 }, hex::encode(&bytes)),
+        )),
+    }
+}
+
 /// Borrowed types (&str, &[u8]) are decode-only and live outside the corpus.
 fn borrowed_case(e: &mut Ent, ctx: &mut Ctx) -> Outcome {
     let is_bytes = e.bool();
@@ -361,6 +397,9 @@ impl Check for C08 {
         let mut e = Ent::new(data);
         if e.ratio(1, 16) {
             return borrowed_case(&mut e, ctx);
+        }
+        if e.ratio(1, 40) {
+            return array_prefix_case(&mut e, ctx);
         }
         let i = e.below(reg.len());
         let ops = reg[i].as_ref();
